@@ -25,8 +25,8 @@ try:
                 if a is None or b is None:
                     print("   too many paths", a is None, b is None); continue
                 from hsa.paths import canon_trace, Path
-                a = [Path(canon_trace(p.trace), "return" if p.kind == "fall" else p.kind, "None" if p.kind == "fall" else p.value, p.env) for p in a]
-                b = [Path(canon_trace(p.trace), "return" if p.kind == "fall" else p.kind, "None" if p.kind == "fall" else p.value, p.env) for p in b]
+                a = [Path(canon_trace(p.trace, p.value), "return" if p.kind == "fall" else p.kind, "None" if p.kind == "fall" else p.value, p.env) for p in a]
+                b = [Path(canon_trace(p.trace, p.value), "return" if p.kind == "fall" else p.kind, "None" if p.kind == "fall" else p.value, p.env) for p in b]
                 da = {describe_path(p) for p in a}; db = {describe_path(p) for p in b}
                 ca = [p for p in a if describe_path(p) not in db]; cb = [p for p in b if describe_path(p) not in da]
                 print(f"   {len(ca)} cur-only paths, {len(cb)} ref-only paths")
